@@ -58,6 +58,11 @@ func c18App(sp c18Spec) *app.App {
 		codec.Ins{Op: codec.MOUT, Sym: "end", Sel: "3"}, codec.Ins{Op: codec.HALT}, codec.Ins{Op: codec.INCMP, Sym: "child", Sel: "1"}, codec.Ins{Op: codec.INCMP, Sym: "sw1", Sel: "2"}, codec.Ins{Op: codec.INCMP, Sym: "fin", Sel: "3"})
 	a.Node("root", "root {{.greet}}", root...)
 	a.Node("sw1", "sw1", codec.Ins{Op: codec.LOAD, Sym: "sw1f", N: 0}, codec.Ins{Op: codec.MOVE, Sym: "_"})
+	if sp.Early {
+		// a second and later selection with the selector symbol still loaded is made by RELOAD
+		a.Node("rs", "rs", codec.Ins{Op: codec.RELOAD, Sym: "sw0"}, codec.Ins{Op: codec.MOVE, Sym: "_"})
+		a.Nodes["root"].Code = append(a.Nodes["root"].Code, codec.Ins{Op: codec.INCMP, Sym: "rs", Sel: "4"})
+	}
 	a.Static = map[string]string{"stat": "static text"}
 	if sp.Trans&4 != 0 {
 		a.StaticLang = map[string]map[string]string{"nor": {"stat": "statisk tekst"}, "swa": {"stat": "maandishi"}}
@@ -105,6 +110,9 @@ func c18App(sp c18Spec) *app.App {
 	}
 	a.Func("sw0", sw).Func("sw1f", sw).Func("sw2f", sw).Func("swf", sw)
 	a.WithInputs("1", "2", "0", "3")
+	if sp.Early {
+		a.WithInputs("1", "2", "0", "3", "4")
+	}
 	return a
 }
 
@@ -182,7 +190,7 @@ func c18Run(c *mc.Ctx) {
 	c.Note("history_depth", fmt.Sprint(depth))
 	c.Note("non_default_switch_answers_per_execution", fmt.Sprint(dev))
 	// the last two serve the application through the library's resource.DbResource over db/mem
-	backends := []lsOpts{{Mode: "long-lived"}, {Mode: "persisted", Backend: "mem"}, {Mode: "long-lived", DbRes: true}, {Mode: "long-lived", PoRes: true}}
+	backends := []lsOpts{{Mode: "long-lived"}, {Mode: "persisted", Backend: "mem"}, {Mode: "long-lived", DbRes: true}, {Mode: "long-lived", PoRes: true}, {Mode: "kept-state"}}
 	if c.Thorough() {
 		backends = append(backends, lsOpts{Mode: "persisted", Backend: "fs"}, lsOpts{Mode: "persisted", Backend: "mem", DbRes: true})
 	}
@@ -191,7 +199,7 @@ func c18Run(c *mc.Ctx) {
 			for _, tr := range subsets {
 				sp := c18Spec{early, cl, tr}
 				for _, o := range backends {
-					for first := 0; first < 4; first++ {
+					for first := 0; first < len(c18App(sp).Inputs); first++ {
 						if !c.Mine() {
 							continue
 						}
